@@ -461,30 +461,40 @@ def _shape_rules(ctx: Ctx, rs: RuleSet):
                            unparse(e.func.value) in trav)
   vals = roles.assigned_from(f, lambda e: roles.call_of('flatten')(e) and
                              unparse(e.func.value) in trav, position=0)
-  loop = None
+  def over_children(it):
+    return isinstance(it, ast.Call) and unparse(it.func) == 'zip' and len(
+        it.args) == 2 and unparse(it.args[0]) in pe and unparse(
+            it.args[1]) in vals
+
+  # (target, item expressions): an append loop or a comprehension
+  producers = []
   for n in walk_function(f.node):
-    if isinstance(n, ast.For) and isinstance(n.iter, ast.Call) and unparse(
-        n.iter.func) == 'zip' and len(n.iter.args) == 2 and unparse(
-            n.iter.args[0]) in pe and unparse(n.iter.args[1]) in vals:
-      loop = n
-  zip_ok = loop is not None
+    if isinstance(n, ast.For) and over_children(n.iter):
+      items = [roles.deref(f, st.args[0]) for st in ast.walk(n) if isinstance(
+          st, ast.Call) and isinstance(st.func, ast.Attribute) and
+               st.func.attr == 'append' and st.args]
+      producers.append((n.target, items))
+    elif isinstance(n, (ast.ListComp, ast.GeneratorExp)) and len(
+        n.generators) == 1 and over_children(n.generators[0].iter) and (
+            not n.generators[0].ifs):
+      producers.append((n.generators[0].target, [n.elt]))
+  zip_ok = bool(producers)
   ok = False
-  if loop is not None and isinstance(loop.target, ast.Tuple):
-    child = unparse(loop.target.elts[1])
+  for target, items in producers:
+    if not isinstance(target, ast.Tuple):
+      continue
+    child = unparse(target.elts[1])
     # the recursive result for the child (possibly held in a local) is the
-    # second slot of the appended item (itself possibly held in a local)
+    # second slot of the item (itself possibly held in a local)
     def is_child_result(e):
       e = roles.deref(f, e)
       return isinstance(e, ast.Call) and unparse(e.func).endswith(
           '._serialize') and bool(e.args) and unparse(e.args[0]) == child
 
-    for st in ast.walk(loop):
-      if isinstance(st, ast.Call) and isinstance(
-          st.func, ast.Attribute) and st.func.attr == 'append' and st.args:
-        item = roles.deref(f, st.args[0])
-        if isinstance(item, ast.Tuple) and len(item.elts) == 2 and (
-            is_child_result(item.elts[1])):
-          ok = True
+    for item in items:
+      if isinstance(item, ast.Tuple) and len(item.elts) == 2 and (
+          is_child_result(item.elts[1])):
+        ok = True
   rs.check(ok and zip_ok, rule, f'{f.qualname}:items',
            'serialized_item = (repr(path_element), serialized child) over '
            'zip(path_elements, values)', ctx.loc(f, f.node))
